@@ -532,12 +532,16 @@ def cases(ctx, mods):
             thrs = RANKS if path == "loader" else ["LIKELY_SAFE"]
             for thr in thrs:
                 kinds = STREAMS if tier == "thorough" else [rng.choice(STREAMS)]
+                if path == "numpy":
+                    kinds = [k for k in kinds if k in ("bytesio", "file", "buffered")]   # numpy.load itself seeks
                 for kind in kinds:
                     yield label, data, thr, path, kind, None, False
     # 2. analysis fails naturally
     for label, data in failing_inputs():
         for path in paths:
             for kind in (STREAMS if tier == "thorough" else ["bytesio", "file", "wrapper"]):
+                if path == "numpy" and kind not in ("bytesio", "file", "buffered"):
+                    continue
                 yield label, data, "OVERTLY_MALICIOUS" if path == "loader" else "LIKELY_SAFE", path, kind, None, False
     for label, data in flagged[:40]:
         for cname, cd in gen.corruptions(data, asm.rng_for(ctx.seed, "c02c" + label), budget=6):
